@@ -174,6 +174,10 @@ func readCanon(format string, r io.Reader, o readOpts) (out string) {
 
 func checkC17(c c17Case) string {
 	ref := readCanon(c.Format, c.reader(nil, false), c.Opts)
+	// other documents read in between (left-overs of a reader's final state) are no part of the byte sequence either
+	for _, p := range poisonDocs[c.Format] {
+		_ = readCanon(c.Format, bytes.NewReader(p), readOpts{})
+	}
 	// the readers of the standard library that know their size or can seek are deliveries like any other
 	std := map[string]io.Reader{"bytes.Buffer": bytes.NewBuffer(append([]byte(nil), c.Doc...)), "bufio.Reader": bufio.NewReader(bytes.NewReader(c.Doc))}
 	if c.Seekable {
@@ -271,6 +275,10 @@ func TestC17(t *testing.T) {
 				crlf := bytes.ReplaceAll(bytes.ReplaceAll(bytes.ReplaceAll(base, []byte("\r\n"), []byte("\n")), []byte("\r"), []byte("\n")), []byte("\n"), []byte("\r\n"))
 				if len(crlf) <= 6000 {
 					docs = append(docs, crlf)
+				}
+				// and with the line ends some old converters leave behind: CR CR LF
+				if crcrlf := bytes.ReplaceAll(crlf, []byte("\r\n"), []byte("\r\r\n")); len(crcrlf) <= 6000 {
+					docs = append(docs, crcrlf)
 				}
 			}
 			if len(docs) > 0 {
